@@ -675,7 +675,7 @@ fn main() {
     run.assume("AS OF TIME is replayed only for commits whose timestamp differs from every other journal row of the Space (equal timestamps are counted and skipped); SEARCH ... AS OF is documented as unsupported and is not in the battery; PURGE is not generated (the only statement allowed to change the past)");
     run.assume("all reads run as the system Principal (current authorization applies to historical reads by specification)");
     let t = run.tier;
-    run.parallel("hist", t.pick(32, 1500), 0.9, |c, rng, st| hist_case(c, rng, st, t.pick(16, 28), t.pick(1, 3)));
+    run.parallel("hist", t.pick(40, 1200), 0.9, |c, rng, st| hist_case(c, rng, st, t.pick(18, 28), t.pick(1, 3)));
     run.floor("history_commits", 120);
     run.floor("battery_recorded", 6000);
     run.floor("replayed:SEQ", 10000);
